@@ -248,3 +248,64 @@ Proof.
   - apply IHh; auto. intros y Hy. apply Htx. right. exact Hy.
 Qed.
 
+
+(** ** Uniqueness from the counter alone (no hypothesis on transaction hashes)
+
+    Messages executed outside a transaction (e.g. by a governance proposal) all see the same,
+    empty, tx bytes; byte-identical records created that way are told apart only by the counter.
+    As long as fewer than 2^32 records are created in the whole history the counters — hence
+    the ids — are pairwise distinct, whatever the tx hashes are. *)
+Definition id_ctr (id : rid) : Z := snd id.
+
+Lemma exec_msgs_counter ms : forall s txh s' cs,
+  exec_msgs s txh ms = Some (s', cs) -> 0 <= counter s < two32 ->
+  length cs = length ms /\ counter s' = (counter s + Z.of_nat (length ms)) mod two32.
+Proof.
+  induction ms as [|m ms IH]; simpl; intros s txh s' cs H Hc.
+  - inversion H; subst. split; [reflexivity|]. rewrite Z.add_0_r. symmetry. apply Z.mod_small. exact Hc.
+  - destruct (exec_msg s txh m) as [[s1 [id1 r1]]|] eqn:E1; [|discriminate].
+    destruct (exec_msgs s1 txh ms) as [[s2 cs2]|] eqn:E2; [|discriminate].
+    inversion H; subst; clear H.
+    apply exec_msg_spec in E1. destruct E1 as (_ & _ & -> & _).
+    assert (Hc1 : 0 <= counter (fst (add_record s r1)) < two32) by (simpl; apply Z.mod_pos_bound; reflexivity).
+    destruct (IH _ _ _ _ E2 Hc1) as (Hl & Hctr). split; [simpl; congruence|].
+    rewrite Hctr. cbn [counter add_record fst]. rewrite Zplus_mod_idemp_l. f_equal.
+    rewrite Zpos_P_of_succ_nat. lia.
+Qed.
+
+Lemma ctrs_app c n m : 0 <= c < two32 ->
+  ctrs c (n + m) = ctrs c n ++ ctrs ((c + Z.of_nat n) mod two32) m.
+Proof.
+  revert c. induction n as [|n IH]; intros c Hc.
+  - simpl. rewrite Z.add_0_r, Z.mod_small by exact Hc. reflexivity.
+  - change (S n + m)%nat with (S (n + m)). cbn [ctrs].
+    rewrite IH by (apply Z.mod_pos_bound; reflexivity). rewrite Zplus_mod_idemp_l.
+    replace (c + 1 + Z.of_nat n) with (c + Z.of_nat (S n)) by (rewrite Nat2Z.inj_succ; lia).
+    reflexivity.
+Qed.
+
+Lemma created_ctrs steps : forall s,
+  0 <= counter s < two32 ->
+  map id_ctr (map fst (created s steps)) = ctrs (counter s) (length (created s steps)).
+Proof.
+  induction steps as [|st rest IH]; simpl; intros s Hc; [reflexivity|].
+  rewrite !map_app, app_length.
+  pose proof (counter_range_step s st Hc) as Hc'.
+  rewrite (IH _ Hc'). rewrite ctrs_app by exact Hc.
+  destruct st as [txh ms|]; simpl.
+  - destruct (exec_msgs s txh ms) as [[s' cs]|] eqn:E; simpl.
+    + destruct (exec_msgs_ctrs _ _ _ _ _ E) as (Hm & _).
+      destruct (exec_msgs_counter _ _ _ _ _ E Hc) as (Hl & Hctr).
+      rewrite map_map. unfold id_ctr. rewrite Hm, Hl, Hctr. reflexivity.
+    + rewrite Z.add_0_r, Z.mod_small by exact Hc. reflexivity.
+  - rewrite Z.add_0_r, Z.mod_small by exact Hc. reflexivity.
+Qed.
+
+Lemma ids_distinct_by_counter_lemma steps s :
+  0 <= counter s < two32 ->
+  Z.of_nat (length (created s steps)) <= two32 ->
+  NoDup (map fst (created s steps)).
+Proof.
+  intros Hc Hn. apply (NoDup_map_inv_fun id_ctr).
+  rewrite created_ctrs by exact Hc. apply ctrs_NoDup; assumption.
+Qed.
